@@ -53,7 +53,7 @@ func c08Event(r *rand.Rand, tag string, base int64) *mocrelay.Event {
 
 func TestVerif_C08(t *testing.T) {
 	rep := vk.NewReport(t, "C08", "exploration")
-	rep.Rule = "NewMergeHandler over 2-5 scripted children; per REQ each child plays a seeded script: stored events (sorted or not, matching or not, shared with other children), its EOSE, then live events carrying unique (child, sequence) marks, with seeded yields/sleeps; timestamps come from a ten-second window that usually starts at 1000 and sometimes at 0, below 0 or at either end of the int64 range; the client issues 1-6 REQs per session, CLOSEs at seeded points (before/around/after the EOSE), re-uses a subscription id only after its EOSE; child emissions and client receipts are stamped on one logical clock and judged offline per (sub id, generation): exactly one EOSE after every child's own (none when a child had received the CLOSE before the last child EOSE was sent), pre-EOSE events are child emissions that match the filters, pairwise distinct, non-increasing in created_at, at most n for a single filter with limit n, post-EOSE emissions all arrive equal and in child order; non-trivial = a generation with at least two children that emitted events; distinct = distinct (children, EOSE order, drop reasons, close class) signatures"
+	rep.Rule = "NewMergeHandler over 2-5 (one handler in sixty: 60-109) scripted children; an event shared by several children is handed out as the same object or as equal copies; per REQ each child plays a seeded script: stored events (sorted or not, matching or not, shared with other children), its EOSE, then live events carrying unique (child, sequence) marks, with seeded yields/sleeps; timestamps come from a ten-second window that usually starts at 1000 and sometimes at 0, below 0 or at either end of the int64 range; the client issues 1-6 REQs per session, CLOSEs at seeded points (before/around/after the EOSE), re-uses a subscription id only after its EOSE; child emissions and client receipts are stamped on one logical clock and judged offline per (sub id, generation): exactly one EOSE after every child's own (none when a child had received the CLOSE before the last child EOSE was sent), pre-EOSE events are child emissions that match the filters, pairwise distinct, non-increasing in created_at, at most n for a single filter with limit n, post-EOSE emissions all arrive equal and in child order; non-trivial = a generation with at least two children that emitted events; distinct = distinct (children, EOSE order, drop reasons, close class) signatures"
 	defer rep.Finish()
 	pc := &pointCtl{sleep: true, only: "merge."}
 	mocrelay.SetVerifPoint(pc.fn)
@@ -66,6 +66,10 @@ func TestVerif_C08(t *testing.T) {
 		}
 		r := vk.RNG("C08", i)
 		nch := 2 + r.IntN(4)
+		if r.IntN(60) == 0 { // "all numbers of children": now and then a very wide merge
+			nch = 60 + r.IntN(50)
+			rep.Count("handlers_with_60_to_109_children", 1)
+		}
 		w := newMWorld()
 		w.cntRule = func(int, string, int) uint64 { return 0 }
 		h := mocrelay.NewMergeHandler(mkChildren(w, nch)...)
@@ -117,7 +121,12 @@ func TestVerif_C08(t *testing.T) {
 					p := mPlan{delaySeed: r.Uint64(), ignoreClos: r.IntN(2) == 0}
 					ns := r.IntN(6)
 					for k := 0; k < ns; k++ {
-						p.stored = append(p.stored, vk.Pick(r, pool))
+						ev := vk.Pick(r, pool)
+						if r.IntN(2) == 0 {
+							// the same event as another Go object (each child decoded it itself)
+							ev = vk.CloneEvent(ev)
+						}
+						p.stored = append(p.stored, ev)
 					}
 					if r.IntN(3) != 0 { // well-behaved child: newest first, no duplicates
 						sort.SliceStable(p.stored, func(a, b int) bool { return p.stored[a].CreatedAt > p.stored[b].CreatedAt })
